@@ -23,6 +23,19 @@ func cases(tier string, seed int64) []eng.Case {
 		out = append(out, eng.Case{ID: fmt.Sprintf("bgv/%03d/logN%d/t%d/L%d/qb%d", i, cc.LogN, cc.T, len(cc.Q)-1, cc.QBits), Sig: "C13|bgv/polynomial.Evaluator", Desc: cc,
 			Run: func(c *eng.Ctx) { runBGV(c, cc) }})
 	}
+	nCKKS := 70
+	if tier == "thorough" {
+		nCKKS = 350
+	}
+	for i := 0; i < nCKKS; i++ {
+		cfg, ok := drawCKKS(r.Sub("ckks", i), i, tier)
+		if !ok {
+			continue
+		}
+		cc := cfg
+		out = append(out, eng.Case{ID: fmt.Sprintf("ckks/%03d/%s/logN%d/ls%d/L%d/d%d", i, cc.Ring, cc.LogN, cc.LogScale, len(cc.Q)-1, cc.Depth), Sig: "C13|ckks/polynomial.Evaluator", Desc: cc,
+			Run: func(c *eng.Ctx) { runCKKS(c, cc) }})
+	}
 	return out
 }
 
